@@ -918,6 +918,66 @@ var _ = late(func() {
 					}
 					fx, fy := endField(bo.X), endField(bo.Y)
 					if fx == "" || fy == "" || fx == fy {
+						// a test on the distance between the ends (n := d.back - d.front + 1; if n < 0 {...}): normalised to
+						// "back - front < t" / ">= t"; contiguous vs wrapped is the cut t = 0 (the same cut as front <= back)
+						lin := func(e *sx) (cb, cf, k int64, ok bool) {
+							var walk func(e *sx, sign int64) bool
+							walk = func(e *sx, sign int64) bool {
+								switch {
+								case e == nil:
+									return false
+								case e.op == "const":
+									kc, isK := e.v.(*ssa.Const)
+									if !isK || kc.Value == nil {
+										return false
+									}
+									k += sign * kc.Int64()
+									return true
+								case e.op == "leaf" && e.fieldSuffix("back"):
+									cb += sign
+									return true
+								case e.op == "leaf" && e.fieldSuffix("front"):
+									cf += sign
+									return true
+								case e.op == "+" && len(e.args) == 2:
+									return walk(e.args[0], sign) && walk(e.args[1], sign)
+								case e.op == "-" && len(e.args) == 2:
+									return walk(e.args[0], sign) && walk(e.args[1], -sign)
+								}
+								return false
+							}
+							ok = walk(e, 1)
+							return
+						}
+						xb, xf, xk, ok1 := lin(symOf(bo.X, provEnv{}))
+						yb, yf, yk, ok2 := lin(symOf(bo.Y, provEnv{}))
+						if !ok1 || !ok2 {
+							return
+						}
+						// (xb-yb)*back + (xf-yf)*front  OP  yk-xk
+						b, f, c0 := xb-yb, xf-yf, yk-xk
+						op := bo.Op
+						if b == -1 && f == 1 {
+							b, f, c0 = 1, -1, -c0
+							op = flip(op)
+						}
+						if b != 1 || f != -1 {
+							return
+						}
+						// back - front OP c0  ->  threshold t with "D < t" (or its negation "D >= t")
+						t := c0
+						switch op {
+						case token.LEQ, token.GTR:
+							t = c0 + 1
+						}
+						rel := "t=" + itoa(int(t))
+						switch t {
+						case 0:
+							rel = "<="
+						case 1:
+							rel = "<"
+						}
+						sites = append(sites, site{bo.Pos(), c.nameOf(fn), rel})
 						return
 					}
 					op := bo.Op
